@@ -2,13 +2,15 @@ from checklib.registry import generic, COMMON_NOTE
 from checklib import steps
 
 def _pregen(work):
-    errs = [e for e in (steps.pregen_slice(work), steps.pregen_linkedlistgo(work), steps.pregen_slicego(work)) if e]
+    errs = [e for e in (steps.pregen_slice(work), steps.pregen_linkedlistgo(work), steps.pregen_slicego(work),
+                        steps.pregen_al(work)) if e]
     return "; ".join(errs) if errs else None
 
 
 CHECK = generic("C04", [dict(harness="lists", area="lists"),
                         dict(harness="lists", area="llptr", name="lists-llptr"),
-                        dict(harness="lists", area="slptr", name="lists-slptr")], pregen=_pregen)
+                        dict(harness="lists", area="slptr", name="lists-slptr"),
+                        dict(harness="lists", area="alptr", name="lists-alptr")], pregen=_pregen)
 
 MANIFEST = dict(
     text=("Theorems in Lean 4 (Ekit/Props/C04.lean): every call on the ArrayList / LinkedList / CopyOnWriteArrayList models "
@@ -25,7 +27,10 @@ MANIFEST = dict(
           "(Ekit/MiniGo/LangLL.lean) is proved to simulate the Ring model call by call (step_sim, new_sim), so that from NewLinkedList(), after every "
           "history of Get/Append/Add/Set/Delete/Len and with enough fuel, the translated program never dereferences nil, returns what the abstract "
           "sequence returns and holds its contents (c04_ll_run_refines); the translated program is run against the real LinkedList on every trace "
-          "(area llptr). The model is an acceptor for traces of the real lists (incl. ConcurrentList wrapper) on every run."),
+          "(area llptr). Props/C04AL.lean: the same for the REGENERATED ArrayList - harness/minigoal translates list/array_list.go on every run "
+          "(Ekit/Generated/ArrayListGo.lean, interpreter Ekit/MiniGo/LangAL.lean; slice.Add/Delete/Shrink = the translated internal/slice) and every "
+          "translated call is proved to simulate ArrayList.step (step_sim, run_sim; c04_al_step_refines, c04_al_run_refines); the translated program "
+          "is run against the real ArrayList on every trace (area alptr). The model is an acceptor for traces of the real lists (incl. ConcurrentList wrapper) on every run."),
     note=COMMON_NOTE + " Slice growth capacity is an oracle constrained only by cap>=len; AsSlice freshness is probed dynamically (aliasing is not in the value-level model).",
     technique="Lean 4 refinement proof (model refines abstract sequence, induction over histories; for the linked list also a simulation proof about "
               "the Go source translated to a deep embedding on every run) + trace-acceptance correspondence against the real lists",
